@@ -50,7 +50,8 @@ func buildUpstream(policy string, n, maxFails, maxConns int, extra string) (prox
 	sb.WriteString(" {\n")
 	pol := policy
 	if policy == "header" {
-		pol = "header X-Key"
+		// header names are case-insensitive, in a Casketfile as on the wire
+		pol = "header " + []string{"X-Key", "x-key", "X-KEY"}[n%3]
 	}
 	fmt.Fprintf(&sb, "  policy %s\n  max_fails %d\n  max_conns %d\n%s}\n", pol, maxFails, maxConns, extra)
 	ups, err := proxy.NewStaticUpstreams(casketfile.NewDispenser("Testfile", strings.NewReader(sb.String())), "")
